@@ -202,7 +202,7 @@ func loadEngine(dir string, overlay map[string][]byte) (*Engine, error) {
 		if _, err := os.Stat(cf); err != nil {
 			continue
 		}
-		cs, err := readContractFile(cf, p.PkgPath, e.voc)
+		cs, err := readContractFileOv(cf, p.PkgPath, e.voc, overlay)
 		if err != nil {
 			return nil, err
 		}
@@ -527,6 +527,7 @@ func (e *Engine) verifyFunc(key string, timeoutS, seed int, allSolvers bool, sol
 	if se := fe.script.solveAll(timeoutS, seed, allSolvers); se != "" {
 		res.Errs = append(res.Errs, "solver error: "+se)
 	}
+	fe.script.coverAll(timeoutS, seed)
 	res.SolveMS = time.Since(t1).Milliseconds()
 	return res
 }
